@@ -3,4 +3,7 @@ import PGV.Props.C07
 #print axioms PGV.Props.C07.C07_merge_idem
 #print axioms PGV.Props.C07.C07_file_idem
 #print axioms PGV.Props.C07.C07_iterate
+#print axioms PGV.Props.C07.C07_rereads
+#print axioms PGV.Props.C07.C07_file_idempotent
+#print axioms PGV.Props.C07.C07_any_number_of_runs
 #print axioms PGV.Props.C07.C07_no_annotation_identity
